@@ -459,12 +459,14 @@ type User implements Node {
   bestFriend: User
   friends(first: Int = 10, orderBy: SortOrder, ids: [ID!]!): [User!]!
   createdAt: DateTime
+  favorite: Account
 }
 
 type Admin implements Node {
   id: ID!
   firstName: String!
   permissionLevels: [Int!]!
+  manages: Account
 }
 
 union Account = User | Admin
@@ -475,6 +477,7 @@ type Query {
   node(id: ID!): Node
   accounts(kinds: [String]): [Account!]!
   serverTime: DateTime
+  anyAccount: Account
 }
 
 type Mutation {
@@ -487,7 +490,10 @@ W9k = copy.deepcopy(W9)
 W9k["id"] = "W9k-custom-operations-keyword-names"
 for _d in W9k["defs"]:
     if _d["name"] == "User" and _d["kind"] == "type":
-        _d["sdl"] = _d["sdl"].replace("  createdAt: DateTime\n", "  createdAt: DateTime\n  from: User\n  global(in: Int, is: [String!]): String\n  class: Int\n")
+        _d["sdl"] = _d["sdl"].replace("  createdAt: DateTime\n", "  createdAt: DateTime\n  from: User\n  global(in: Int, is: [String!]): String\n  class: Int\n"
+                                      "  runJob(command: String!, arguments: [String!], clearedArguments: Int, key: String, value: String, fieldName: Int): String\n")
+    if _d["name"] == "Mutation" and _d["kind"] == "type":
+        _d["sdl"] = _d["sdl"].replace("  deleteUsers(", "  runJob(command: String!, arguments: [String!], key: String, value: Int): Int\n  deleteUsers(")
 W15 = _world("W15-custom-ops-fragments-only", "\n\n".join(d["sdl"] for d in W9["defs"]), """
 fragment UserBits on User {
   id
